@@ -136,8 +136,10 @@ theorem any_comp_beq_num (l : List JNum) (n : JNum) :
 /-- numeric rule values that are exact integers `float64` represents. -/
 def IntBound (o : Option NumB) : Prop := ∀ b, o = some b → ∃ i : Int, b.v = .int i ∧ i.natAbs ≤ 2 ^ 53
 
-/-- the integer kinds whose own rule group is the one the generator reads and whose JSON form is a number. -/
-def NumberJsonInt (nk : NKind) (i64n : Bool) : Prop := nk = .int32 ∨ (nk = .int64 ∧ i64n = true)
+/-- the signed integer kinds whose JSON form is a number: the 32-bit ones, and the 64-bit ones under
+`int64_encoding = NUMBER` (every kind reads its own rule group since /repo 3ffb0a3). -/
+def NumberJsonInt (nk : NKind) (i64n : Bool) : Prop :=
+  nk = .int32 ∨ nk = .sint32 ∨ nk = .sfixed32 ∨ ((nk = .int64 ∨ nk = .sint64 ∨ nk = .sfixed64) ∧ i64n = true)
 
 /-- an integer bound is absent, or the document shows it as the same integer. -/
 theorem intBound_norm {nk : NKind} {i64n : Bool} (hk : NumberJsonInt nk i64n) {o : Option NumB} (h : IntBound o) :
@@ -147,7 +149,7 @@ theorem intBound_norm {nk : NKind} {i64n : Bool} (hk : NumberJsonInt nk i64n) {o
   | some b =>
     obtain ⟨i, hv, hi⟩ := h b rfl
     refine Or.inr ⟨b, i, rfl, ?_, hv⟩
-    rcases hk with rfl | ⟨rfl, rfl⟩ <;> simp [Impl.boundJson, hv, toF64_small _ hi]
+    rcases hk with rfl | rfl | rfl | ⟨rfl | rfl | rfl, rfl⟩ <;> simp [Impl.boundJson, hv, toF64_small _ hi]
 
 set_option maxHeartbeats 8000000 in
 theorem int_rules_iff (nk : NKind) (i64n : Bool) (hk : NumberJsonInt nk i64n) (c : FCard) (hc : c.isScalar = true)
@@ -160,11 +162,11 @@ theorem int_rules_iff (nk : NKind) (i64n : Bool) (hk : NumberJsonInt nk i64n) (c
   simp only at hg hgt hlt hgte hlte
   subst hg
   have hj : jsonForm (.num group) i64n (.one (.num (.int i))) = .num (.int i) := by
-    rcases hk with rfl | ⟨rfl, rfl⟩ <;> simp [jsonForm, jsonScalar, NKind.is64]
+    rcases hk with rfl | rfl | rfl | ⟨rfl | rfl | rfl, rfl⟩ <;> simp [jsonForm, jsonScalar, NKind.is64]
   have hb : Impl.baseCore (.num group) i64n = [(K.type, .str T.integer)] := by
-    rcases hk with rfl | ⟨rfl, rfl⟩ <;> simp [Impl.baseCore]
+    rcases hk with rfl | rfl | rfl | ⟨rfl | rfl | rfl, rfl⟩ <;> simp [Impl.baseCore]
   have hget : Impl.getter group = group := by
-    rcases hk with rfl | ⟨rfl, rfl⟩ <;> rfl
+    rcases hk with rfl | rfl | rfl | ⟨rfl | rfl | rfl, rfl⟩ <;> rfl
   have n1 := intBound_norm hk hgte
   have n2 := intBound_norm hk hgt
   have n3 := intBound_norm hk hlte
